@@ -155,7 +155,7 @@ class TriggerHandler:
                     try:
                         ctx: ActionContext
                         with trigger_context.action_context(action) as ctx:
-                            if ctx.can_trigger():
+                            if ctx.can_trigger() and ctx.acquire():
                                 ctx.process()
                     except BaseException:
                         logging.exception("Cannot process action %s", action)
